@@ -243,6 +243,18 @@ def o14_2_filter_index(mir, tier):
             res.absorb(ex)
         ex = None
     if ex is not None: res.absorb(ex)
+    # offsets at and beyond 4 GiB (max_file_size is a configurable u64): the quotient is far beyond the four filters the reader holds, so
+    # no filter may be consulted - an index computed in 32 bits wraps around to an early filter
+    for q in range(0, 4):
+        ex = Exec(mir, S2, loop_bound=4)
+        try:
+            ex.top(km, [Ref('$fr'), off, {'len': BitVec('klen', 64), 'kind': 'key'}], {'$state': {'asked': []}, '$fr': fr},
+                   [UGE(off, bv(1 << 32)), ULT(off, bv(1 << 45)), LShR(ZeroExt(32, Extract(31, 0, off)), bv(11)) == bv(q)], k2)
+        except Inconclusive as e:
+            if 'symbolic index' not in str(e) and 'concrete integer' not in str(e): raise
+            res.status = 'inconclusive'; res.reason = 'reader with an offset beyond 4 GiB: %s' % e
+        res.absorb(ex)
+    res.cases['reader, offsets >= 4 GiB'] = 4
     res.wall_s = time.time() - t0
     if res.violations: res.status = 'violation'
     return res
